@@ -27,6 +27,7 @@ type LeveldbDiskStorage struct {
 // Create a new table, destroying any existing table.
 func (f LeveldbDiskStorage) Create(tbl *btapb.Table) Rows {
 	f.SetTableMeta(tbl)
+	verifPoint("Create.afterMeta")
 	path := filepath.Join(f.Root, tbl.Name)
 	newFunc := func(nuke bool) *leveldb.DB {
 		return newDiskDb(path, nuke)
@@ -87,6 +88,7 @@ func (f LeveldbDiskStorage) SetTableMeta(tbl *btapb.Table) {
 	if err := os.MkdirAll(path, 0777); err != nil {
 		f.errLog(err, "os.MkdirAll %q", path)
 	}
+	verifPoint("SetTableMeta.afterMkdir")
 	buf, err := proto.Marshal(tbl)
 	if err != nil {
 		panic(err) // should not fail
@@ -98,11 +100,13 @@ func (f LeveldbDiskStorage) SetTableMeta(tbl *btapb.Table) {
 		f.errLog(err, "ioutil.WriteFile %q", tmpPath)
 		return
 	}
+	verifPoint("SetTableMeta.afterTmpWrite")
 
 	if err := os.Rename(tmpPath, outPath); err != nil {
 		f.errLog(err, "os.Rename %q -> %q", tmpPath, outPath)
 		return
 	}
+	verifPoint("SetTableMeta.afterRename")
 }
 
 func (f LeveldbDiskStorage) errLog(err error, format string, args ...interface{}) {
@@ -116,6 +120,7 @@ var _ Storage = LeveldbDiskStorage{}
 func newDiskDb(path string, nuke bool) *leveldb.DB {
 	if nuke {
 		_ = os.RemoveAll(path)
+		verifPoint("newDiskDb.afterRemoveAll")
 	}
 
 	db, err := leveldb.OpenFile(path, &opt.Options{
@@ -127,5 +132,6 @@ func newDiskDb(path string, nuke bool) *leveldb.DB {
 	if err != nil {
 		panic(err)
 	}
+	verifPoint("newDiskDb.afterOpen")
 	return db
 }
